@@ -79,10 +79,18 @@ def exec_write(scn):
     how = scn["how"]
     on_lines = all(b["p48"] % 192 == 0 for b in scn["bpms"])
     try:
-        if how in ("built", "rated"):
+        if how in ("built", "rated", "edit_rewrite", "unsorted_bpms"):
             ms = build_set(scn, r)
             if how == "rated":
                 ms = ms.rate(2.0).rate(0.5)
+            elif how == "edit_rewrite":
+                # history: written once, then the tempo is edited in place through the column property
+                ms.write()
+                for m in ms.maps:
+                    m.bpms.bpm *= 2
+            elif how == "unsorted_bpms":
+                for m in ms.maps:
+                    m.bpms = m.bpms.sorted(reverse=True)
             return write_records(ms, scn["id"], f"sm.write.{how}.{scn['type']}", on_lines)
         if how == "read":
             from reamber.sm.SMMapSet import SMMapSet
